@@ -45,11 +45,13 @@ def cases(tier):
                 for iset in sets:
                     for var in ('hosvd', 'hocur'):
                         if var == 'hosvd':
-                            for thr in (1e-12, 1e-6):
+                            for thr in (1e-12, 1e-6, 0, 0.0):
                                 for mr in ('inf', 3):
                                     for fl in ((0, 0), (1, 0), (0, 1), (1, 1)):
                                         if fl != (0, 0) and (thr != 1e-12 or mr != 'inf'):
                                             continue
+                                        if thr == 0 and (mr != 'inf' or len(iset) > 1):
+                                            continue      # an explicit zero threshold (int and float): no truncation at all
                                         yield {'d': d, 'm': m, 'ws': [list(w) for w in ws], 'iset': iset, 'var': var, 'thr': thr, 'mr': mr, 'fl': list(fl)}
                         else:
                             if len(iset) > 1 or len(iset[0][0]) >= 2:
@@ -154,7 +156,7 @@ def run_case(case, seed):
         if var == 'hosvd' and case['mr'] != 'inf':
             for o in etl:
                 r.true(key + ':rank-cap', all(rr <= case['mr'] for rr in o.ranks[1:-1]), 'eigentensor ranks %s exceed max_rank %s (threshold %g)' % (o.ranks, case['mr'], case['thr']))
-        exact = (var == 'hosvd' and case['thr'] == 1e-12 and case['mr'] == 'inf') or var == 'hocur'
+        exact = (var == 'hosvd' and case['thr'] in (1e-12, 0) and case['mr'] == 'inf') or var == 'hocur'
         for kpos in range(len(iset)):
             lam = np.asarray(evl[kpos]); T = etl[kpos]
             if not r.true(key + ':dims', list(T.row_dims[:-1]) == nmode and T.row_dims[-1] == len(lam), 'row dims %s, %d eigenvalues' % (T.row_dims, len(lam))):
